@@ -736,6 +736,22 @@ def du7_whole_before_floor(ctx):
             ctx.analysed('DU7', '%s: %s is tried first (alphabetical rule order)' % (lang, first))
     b = ctx.facts.one(r'^tokinizer::rule_tokinizer::find_match$')
     ctx.fn(b)
+    names_ = set(b.names.values())
+    if not {'target_token_index', 'rule_token_index', 'start_token_index'} <= names_:
+        # the scan keeps its state differently (other names, a struct): what the three counters guarantee is what the matcher
+        # table (scv/matcher.py, DU10) tabulates - a token that ends an attempt is not tried as a new first token
+        from ..report import Ctx as _Ctx
+        from ..matcher import matcher_table as _mt
+        _sub = _Ctx('C10', ctx.tier, ctx.facts, ctx.cg, ctx.config, ctx.repo, ctx.cfg_name)
+        _sub.rule('DU10', 'pattern scan', floor=1)
+        try:
+            ok_ = bool(_mt(_sub, 'DU10')) and not _sub.findings
+        except Exception:
+            ok_ = False
+        if ok_:
+            for what in ('the scan goes on behind a token that ended an attempt (matcher table)', 'fields are bound in the completed attempt only (matcher table)', 'the matched run is replaced as a whole (matcher table)'):
+                ctx.ok('DU7', what, 'absint', site=b.loc, sample=False)
+            return
     want = {'target_token_index': {'0', '($target_token_index AddWithOverflow 1).#0', '($target_token_index Add 1)'},
             'rule_token_index': {'0', '($rule_token_index AddWithOverflow 1).#0', '($rule_token_index Add 1)'},
             'start_token_index': {'0', '$target_token_index'}}
@@ -783,3 +799,14 @@ def du9_lexical(ctx):
 
 
 RULES.append(('DU9', du9_lexical))
+
+
+def du10_matcher(ctx):
+    """DU10 the pattern scan of rule_tokinizer / find_match, tabulated (scv/matcher.py): which tokens a rule function is handed
+    for each named field and what the matched run is replaced by, on every line of up to three (thorough: four) tokens"""
+    from ..matcher import matcher_table
+    ctx.rule('DU10', 'pattern scan: matches, field bindings and replacement (tabulated)', floor=1)
+    matcher_table(ctx, 'DU10', deep=(ctx.tier == 'thorough' and ctx.cfg_name == 'dev'))
+
+
+RULES.append(('DU10', du10_matcher))
